@@ -11,6 +11,10 @@ package main
 //  3. run-time search: generated (rules, files) with custom filters calling GetType/GetInterface on
 //     packages nobody imported; per-goroutine report lists must equal the lone sequential baseline
 //     (`spec08run`), the race detector's log is parsed.
+//  4. "typeid" rounds of the run-time search (gen_typeid.go): rule sets made of every type-directed predicate
+//     over multi-file packages with colliding type identities (instantiations of one generic type, same-named
+//     local types, packages type-checked under one path): N goroutines over different files on one cold engine
+//     vs the lone run of each file on a fresh engine, and the warm re-run.
 
 import (
 	"bytes"
@@ -64,6 +68,112 @@ type c08World struct {
 	pkgs        []c08Pkg
 	targets     []string
 	targetDeps  [][]int
+	// packages with colliding type identities: tid[0..nImportable) live in GOPATH (importable by the rules),
+	// the others are variants type-checked under the path of one of them
+	tid    []c08PkgRef
+	tidExt *tidExt
+}
+
+const c08TidSinks = 8
+
+// c08GenTidWorld adds the multi-file packages of the typeid rounds to the world.
+func c08GenTidWorld(r *rand.Rand, w *c08World, nImportable, nVariants int) error {
+	w.tidExt = &tidExt{}
+	add := func(path, dir string) error {
+		name := path[strings.LastIndexByte(path, '/')+1:]
+		p := tidGenPackage(r, path, name, 2+r.Intn(2), c08TidSinks)
+		if _, err := tidWritePackage(dir, p); err != nil {
+			return err
+		}
+		ref := c08PkgRef{Path: path, Dir: dir}
+		for _, f := range p.Files {
+			ref.All = append(ref.All, f.Name)
+			if f.Name != "types.go" {
+				ref.Targets = append(ref.Targets, f.Name)
+			}
+		}
+		w.tid = append(w.tid, ref)
+		return nil
+	}
+	for k := 0; k < nImportable; k++ {
+		path := fmt.Sprintf("verifpkg/m%d", k)
+		if err := add(path, filepath.Join(w.gopath, "src", "verifpkg", fmt.Sprintf("m%d", k))); err != nil {
+			return err
+		}
+		w.tidExt.Pkgs = append(w.tidExt.Pkgs, path)
+		w.tidExt.Ifaces = append(w.tidExt.Ifaces, path+".Getter")
+	}
+	for k := 0; k < nVariants; k++ {
+		if err := add(fmt.Sprintf("verifpkg/m%d", k%nImportable), filepath.Join(w.dir, "variants", fmt.Sprintf("v%d", k))); err != nil {
+			return err
+		}
+	}
+	for n := range w.pkgs {
+		for i := 0; i < 3; i++ {
+			w.tidExt.Ifaces = append(w.tidExt.Ifaces, fmt.Sprintf("verifpkg/p%d.I%d", n, i))
+		}
+	}
+	return nil
+}
+
+// genTidRound: a typeid round — 2-3 of the packages (preferably some that share their path), at most 7 of their
+// files, a rule set of type-directed predicates, workers over the files.
+func (w *c08World) genTidRound(r *rand.Rand, deck *[]int, id int, heavy bool) c08RunRound {
+	rd := c08RunRound{ID: id}
+	rs := tidGenRules(r, deck, 6+r.Intn(8), c08TidSinks, w.tidExt, heavy)
+	rd.Rules, rd.TidRules = rs.Src, rs.Rules
+	for _, ri := range rs.Rules {
+		for _, k := range ri.Kinds {
+			rd.Kinds = append(rd.Kinds, "tid:"+k)
+		}
+	}
+	first := r.Intn(len(w.tid))
+	chosen := []int{first}
+	for k, p := range w.tid {
+		if k != first && p.Path == w.tid[first].Path && r.Intn(3) != 0 {
+			chosen = append(chosen, k)
+		}
+	}
+	for len(chosen) < 2 || (len(chosen) < 3 && r.Intn(2) == 0) {
+		k := r.Intn(len(w.tid))
+		dup := false
+		for _, c := range chosen {
+			dup = dup || c == k
+		}
+		if !dup {
+			chosen = append(chosen, k)
+		}
+	}
+	r.Shuffle(len(chosen), func(i, j int) { chosen[i], chosen[j] = chosen[j], chosen[i] })
+	budget := 7
+	for _, k := range chosen {
+		ref := w.tid[k]
+		ts := append([]string(nil), ref.Targets...)
+		if len(ts) > budget {
+			ts = ts[:budget]
+		}
+		budget -= len(ts)
+		if len(ts) == 0 {
+			continue
+		}
+		ref.Targets = ts
+		rd.Pkgs = append(rd.Pkgs, ref)
+		for _, f := range ts {
+			rd.Files = append(rd.Files, fmt.Sprintf("%s[%s]/%s", ref.Path, filepath.Base(ref.Dir), f))
+		}
+	}
+	nf := len(rd.Files)
+	nw := []int{2, 2, 3, 4, 4, 8}[r.Intn(6)]
+	for k := 0; k < nw; k++ {
+		n := 1 + r.Intn(3)
+		var a []int
+		for j := 0; j < n; j++ {
+			a = append(a, r.Intn(nf))
+		}
+		rd.Assign = append(rd.Assign, a)
+	}
+	rd.StateMode = []string{"nil", "own", "pool"}[r.Intn(3)]
+	return rd
 }
 
 func c08Subset(r *rand.Rand, n, min int) []int {
@@ -315,8 +425,21 @@ func (w *c08World) genRules(r *rand.Rand, thorough bool) (string, []string) {
 					"m[\"x\"].Object.IsGlobal()", "m[\"x\"].Node.Is(`Ident`)", "m[\"x\"].Type.Implements(`error`)",
 				}
 				cond := conds[r.Intn(len(conds))]
+				kind := "builtin-filter"
+				if r.Intn(2) == 0 {
+					// any type-directed predicate of the DSL (gen_typeid.go), plain or negated
+					tg := &tidRuleGen{r: r, imports: map[string]bool{}}
+					tg.deck = []int{r.Intn(len(tidAtomKinds))}
+					a, ka := tg.atom("x", false)
+					if !strings.HasPrefix(ka, "Filter:") {
+						cond, kind = a, "typed-filter:"+ka
+						if r.Intn(3) == 0 {
+							cond = "!(" + a + ")"
+						}
+					}
+				}
 				fmt.Fprintf(&b, "\tm.Match(`sink($x)`).Where(%s).Report(`g%d.%d builtin $x`)\n", cond, g, k)
-				kinds = append(kinds, "builtin-filter")
+				kinds = append(kinds, kind)
 			}
 		}
 		b.WriteString("}\n\n")
@@ -579,6 +702,13 @@ func runC08(c *Ctx) error {
 	if err != nil {
 		return err
 	}
+	nTid := 24
+	if c.Thorough {
+		nTid = 150
+	}
+	if err := c08GenTidWorld(hx.Rng(c.Seed, "c08-tid-world"), world, 3, 4); err != nil {
+		return err
+	}
 	for pi, gmp := range procs {
 		spec := c08Spec{GoPath: world.gopath, GoMaxProcs: gmp}
 		rft := hx.Rng(c.Seed, fmt.Sprintf("c08-ft-%d", pi))
@@ -625,6 +755,13 @@ func runC08(c *Ctx) error {
 			r.StateMode = []string{"nil", "own", "pool"}[rrun.Intn(3)]
 			r.SharedUniverse = rrun.Intn(2) == 0
 			spec.Runs = append(spec.Runs, r)
+		}
+		// typeid rounds: type-directed predicates x colliding type identities
+		rtid := hx.Rng(c.Seed, fmt.Sprintf("c08-tid-%d", pi))
+		var deck []int
+		for i := 0; i < nTid; i++ {
+			// names that make a fresh engine type-check fmt / io from source (slow under -race): thorough only
+			spec.Runs = append(spec.Runs, world.genTidRound(rtid, &deck, nRun+i, c.Thorough && i%10 == 9))
 		}
 		// the analysis adapter's once-only engine under contention (one round per child: the engine is process-wide)
 		{
@@ -1005,7 +1142,67 @@ func c08RunChild(c *Ctx, bin, dir, repoDir string, spec *c08Spec, idx int, suspe
 				nontrivial = true
 			}
 		}
-		res.Count("run", string(key), nontrivial)
+		suite, sigSuffix := "run", ""
+		var narrow interface{}
+		if len(r.Pkgs) > 0 {
+			// typeid round: non-trivial when two different files of packages with one path are analysed on the engine
+			suite, nontrivial = "run-typeid", false
+			pathOf := map[int]string{}
+			fi := 0
+			for _, p := range r.Pkgs {
+				for range p.Targets {
+					pathOf[fi] = p.Path
+					fi++
+				}
+			}
+			used := map[string]map[int]bool{}
+			for _, a := range r.Assign {
+				for _, fi := range a {
+					if used[pathOf[fi]] == nil {
+						used[pathOf[fi]] = map[int]bool{}
+					}
+					used[pathOf[fi]][fi] = true
+				}
+			}
+			for _, fs := range used {
+				if len(fs) >= 2 {
+					nontrivial = true
+				}
+			}
+			paths := map[string]int{}
+			for _, p := range r.Pkgs {
+				paths[p.Path]++
+			}
+			for _, n := range paths {
+				if n >= 2 {
+					res.Dist("run-typeid:packages-sharing-a-path")
+					break
+				}
+			}
+			res.Dist(fmt.Sprintf("run-typeid:files=%d", len(r.Files)))
+			if o.Narrow != nil {
+				sigSuffix, narrow = ":"+o.Narrow.Kinds, o.Narrow
+			} else {
+				// no sequential single-rule replay: name the rules whose reports differ
+				var ids []int
+				for fi := range r.Files {
+					ids = append(ids, tidDiffRules(strings.Split(o.Baseline[fi], " | "), strings.Split(o.WarmAfter[fi], " | "))...)
+				}
+				for w, a := range r.Assign {
+					for j, fi := range a {
+						if w < len(o.Workers) && j < len(o.Workers[w]) {
+							ids = append(ids, tidDiffRules(strings.Split(o.Baseline[fi], " | "), strings.Split(o.Workers[w][j], " | "))...)
+						}
+					}
+				}
+				if len(ids) > 0 {
+					sort.Ints(ids)
+					sigSuffix = ":" + strings.Join(r.TidRules[ids[0]].Kinds, "+")
+					narrow = map[string]interface{}{"first_differing_rule": r.TidRules[ids[0]].Text}
+				}
+			}
+		}
+		res.Count(suite, string(key), nontrivial)
 		res.Dist("run-round:state=" + r.StateMode)
 		res.Dist(fmt.Sprintf("run-round:workers=%d", len(r.Assign)))
 		for _, kd := range r.Kinds {
@@ -1046,9 +1243,9 @@ func c08RunChild(c *Ctx, bin, dir, repoDir string, spec *c08Spec, idx int, suspe
 			}
 		}
 		rops = append(rops, fmt.Sprintf("spec08run %s %s", c08Hash(want), c08Hash(got)))
-		rmeta = append(rmeta, map[string]interface{}{"sig": "Run:concurrent-differs-from-sequential", "round": r, "diffs": diffs, "gomaxprocs": spec.GoMaxProcs})
+		rmeta = append(rmeta, map[string]interface{}{"sig": "Run:concurrent-differs-from-sequential" + sigSuffix, "round": r, "diffs": diffs, "gomaxprocs": spec.GoMaxProcs, "narrowed": narrow})
 		rops = append(rops, fmt.Sprintf("spec08run %s %s", c08Hash(wantW), c08Hash(gotW)))
-		rmeta = append(rmeta, map[string]interface{}{"sig": "Run:warm-cache-differs-from-cold", "round": r, "diffs": diffsW, "gomaxprocs": spec.GoMaxProcs})
+		rmeta = append(rmeta, map[string]interface{}{"sig": "Run:warm-cache-differs-from-cold" + sigSuffix, "round": r, "diffs": diffsW, "gomaxprocs": spec.GoMaxProcs, "narrowed": narrow})
 	}
 	if len(rops) > 0 {
 		rans, err := c.Drv.Ask(rops)
